@@ -190,7 +190,16 @@ func (b *B) Teardown(c *Conn) {
 // Tick runs one housekeeping task at time now (unix seconds).
 func (b *B) Tick(kind string, now int64) {
 	b.Step++
-	b.Srv.VerifTick(kind, now)
+	func() {
+		// in the real broker the event loop runs this on its own goroutine and nothing recovers a
+		// panic there (the process dies); here it is recorded as an observation
+		defer func() {
+			if r := recover(); r != nil {
+				b.Rec.add(HookEvent{Name: "PANIC", Extra: "housekeeping " + kind + ": " + fmt.Sprint(r)})
+			}
+		}()
+		b.Srv.VerifTick(kind, now)
+	}()
 	b.Quiesce()
 }
 
